@@ -207,6 +207,15 @@ def instances(env, cfg, family, B, seed):
                     td["distance_limit"] = dl
             return td
         return td
+    if family == "split":
+        # SDVRP: dyadic demands between 3/8 and 7/8 of the vehicle: almost every route ends with a partial delivery, customers
+        # are revisited with little or much free capacity (exact arithmetic: every admissible history is decidable)
+        if name == "sdvrp":
+            k = torch.randint(3, 8, (B, n), generator=g)
+            td["demand"] = k.float() / 8.0 * float(env.generator.vehicle_capacity)
+            grid = torch.randint(0, 9, (B, n + 1, 2), generator=g).float() / 8.0
+            td["locs"], td["depot"] = grid[:, 1:], grid[:, 0]
+        return td
     if family == "chain":
         # MTVRP with windows: the first linehaul customers form a chain depot -> c1 -> c2 -> c3 whose windows close 2e-3 after
         # the exact arrival along the chain (travel = distance / speed, service times added): the chain is feasible with a
@@ -285,6 +294,17 @@ def instances(env, cfg, family, B, seed):
                 tot = pr[:h].sum(-1, keepdim=True).clamp(min=1e-6)
                 pr[:h] = pr[:h] / tot * (0.3 + 0.6 * torch.rand(h, 1, generator=g))
                 td[key] = pr
+        if name == "op":
+            # a third of the rows cannot reach any customer within their budget (shorter than the nearest round trip): the only
+            # admissible tour is the empty one, next to ordinary rows in the same batch
+            k = max(1, B // 3)
+            l2 = td["locs"].clone()
+            l2[:k, -1] = (td["depot"][:k] + 0.31) % 1.0  # (these rows keep no customer on the depot)
+            td["locs"] = l2
+            d0 = (td["locs"] - td["depot"][:, None, :]).norm(dim=-1).min(-1).values
+            ml = td["max_length"].clone()
+            ml[:k] = (1.5 * d0[:k]).clamp(min=1e-3)
+            td["max_length"] = ml
         if name == "mtsp":
             td["num_agents"][: B // 2] = 1
             td["num_agents"][B // 2 :] = n - 1
